@@ -2,6 +2,8 @@ package main
 
 import (
 	"fmt"
+	"os"
+	"strings"
 	"go/token"
 	"go/types"
 	"sort"
@@ -22,7 +24,7 @@ func init() {
 // parentCancelEdges: edges of the parent function on which the shared counter was found to hold the cancel value
 func parentCancelEdges(s *taskSide) []edge {
 	var out []edge
-	for _, b := range s.parent.Blocks {
+	for _, b := range s.entry.Blocks {
 		ifi := blockIf(b)
 		if ifi == nil {
 			continue
@@ -62,7 +64,7 @@ func parentCancelEdges(s *taskSide) []edge {
 
 func ruleBatchOnly(p *Prog, r *RuleResult) {
 	s := resolveSide(p, "Reader")
-	pb := s.parent
+	pb := s.entry
 	pname := p.FnName(pb)
 	isWait := func(i ssa.Instruction) bool {
 		c := callOf(i)
@@ -76,6 +78,13 @@ func ruleBatchOnly(p *Prog, r *RuleResult) {
 	cancels := parentCancelEdges(s)
 	n := 0
 	var k keyer
+	waitSet := map[ssa.Instruction]bool{}
+	for _, w := range waits {
+		waitSet[w] = true
+	}
+	// blocks that can be reached from the entry without executing a wait (a loop whose flag starts as the constant
+	// true cannot be left before its body ran once: such exits are pruned)
+	unreachedWithout := reachAvoiding(pb, waitSet)
 	for _, b := range pb.Blocks {
 		ret, ok := b.Instrs[len(b.Instrs)-1].(*ssa.Return)
 		if !ok || b == pb.Recover {
@@ -87,10 +96,8 @@ func ruleBatchOnly(p *Prog, r *RuleResult) {
 		}
 		n++
 		covered := ""
-		for _, w := range waits {
-			if instrDominates(w, ret) {
-				covered = "after a batch of tasks completed"
-			}
+		if !unreachedWithout[b] {
+			covered = "after a batch of tasks completed"
 		}
 		for _, e := range cancels {
 			if edgeDominates(pb, e, b) {
@@ -121,7 +128,7 @@ func ruleEOFAtEnd(p *Prog, r *RuleResult) {
 	fname := p.FnName(rd)
 	var pbCalls []*ssa.Call
 	eachInstr(rd, func(i ssa.Instruction) {
-		if c, ok := i.(*ssa.Call); ok && c.Call.StaticCallee() == s.parent {
+		if c, ok := i.(*ssa.Call); ok && c.Call.StaticCallee() == s.entry {
 			pbCalls = append(pbCalls, c)
 		}
 	})
@@ -323,6 +330,155 @@ func ruleDivGuard(p *Prog, r *RuleResult) {
 			})
 		}
 	}
+	ngate := 0
+	// The guard above is only evaluated by a header parse that ran to the end. The parser is entered through a
+	// once-gate (swap/CAS of a flag at entry, "already parsed" returns success): if a parse that fails leaves the
+	// gate closed, the next call skips the parser and uses the unvalidated (zero) fields. So: whenever the parser
+	// reports an error - by return or by a recovered panic - the gate flag is reset.
+	for _, f := range p.ModFns {
+		if p.Rel(f) != "io" || f.Parent() != nil {
+			continue
+		}
+		hasStore := false
+		eachInstr(f, func(i ssa.Instruction) {
+			if st, ok := i.(*ssa.Store); ok {
+				if fv := isReaderField(st.Addr); fv != nil && divisors[fv] != nil && len(traceSize(p, st.Val).sources) > 0 {
+					hasStore = true
+				}
+			}
+		})
+		if !hasStore {
+			// the parse may have been split: the function that owns the gate calls the one with the stores
+			memo := map[*ssa.Function]int{}
+			hasStore = p.containsDeep(f, func(i ssa.Instruction) bool {
+				if st, ok := i.(*ssa.Store); ok {
+					if fv := isReaderField(st.Addr); fv != nil && divisors[fv] != nil && len(traceSize(p, st.Val).sources) > 0 {
+						return true
+					}
+				}
+				return false
+			}, memo)
+		}
+		if !hasStore {
+			continue
+		}
+		// the gate: an atomic swap/CAS to 1 of a Reader field in the entry region
+		var gate *types.Var
+		var gateAt ssa.Instruction
+		eachInstr(f, func(i ssa.Instruction) {
+			c := callOf(i)
+			if c == nil || gate != nil || !isAtomic(c, "SwapInt32", "CompareAndSwapInt32") || len(c.Args) < 2 {
+				return
+			}
+			if v, ok := constInt(c.Args[len(c.Args)-1]); !ok || v != 1 {
+				return
+			}
+			if fv := isReaderField(c.Args[0]); fv != nil {
+				gate, gateAt = fv, i
+			}
+		})
+		if gate == nil {
+			continue
+		}
+		ngate++
+		key := fmt.Sprintf("%s#gate-reset.%s", p.FnName(f), gate.Name())
+		isReset := func(i ssa.Instruction) bool {
+			if c := callOf(i); c != nil && isAtomic(c, "StoreInt32", "SwapInt32") && len(c.Args) == 2 {
+				if v, ok := constInt(c.Args[1]); ok && v == 0 && fieldVarOfAddr(c.Args[0]) == gate {
+					return true
+				}
+			}
+			if st, ok := i.(*ssa.Store); ok && fieldVarOfAddr(st.Addr) == gate {
+				if v, ok := constInt(st.Val); ok && v == 0 {
+					return true
+				}
+			}
+			return false
+		}
+		okReset, why := false, "the parser never re-opens its once-gate"
+		// (a) in a deferred handler: a reset that is not confined to the recovered-panic branch
+		eachInstr(f, func(i ssa.Instruction) {
+			d, ok := i.(*ssa.Defer)
+			if !ok {
+				return
+			}
+			h := deferredTarget(d)
+			if h == nil || h.Blocks == nil {
+				return
+			}
+			var recEdges []edge
+			for _, b := range h.Blocks {
+				ifi := blockIf(b)
+				if ifi == nil {
+					continue
+				}
+				if x, succ, ok := nilTest(ifi.Cond); ok {
+					if c, ok := stripConv(x).(*ssa.Call); ok {
+						if bi, ok := c.Call.Value.(*ssa.Builtin); ok && bi.Name() == "recover" {
+							recEdges = append(recEdges, edge{b, succ})
+						}
+					}
+				}
+			}
+			eachInstr(h, func(j ssa.Instruction) {
+				if !isReset(j) {
+					return
+				}
+				confined := false
+				for _, e := range recEdges {
+					if edgeDominates(h, e, j.Block()) {
+						confined = true
+					}
+				}
+				if confined {
+					why = "the once-gate is re-opened only when a panic was recovered: a header that is rejected by a validation error leaves the reader marked initialised with unvalidated fields, and the next Read divides by the zero block size in the caller's goroutine"
+				} else {
+					okReset = true
+				}
+			})
+		})
+		// (b) inline: every return with a definite error that comes after the gate is preceded by a reset
+		if !okReset {
+			all, any := true, false
+			for _, b := range f.Blocks {
+				ret, ok := b.Instrs[len(b.Instrs)-1].(*ssa.Return)
+				if !ok || b == f.Recover {
+					continue
+				}
+				rv := rvals(ret)
+				if len(rv) == 0 || !isErrType(rv[len(rv)-1].Type()) || retMayBeNil(ret, len(rv)-1) || !instrReaches(gateAt, ret) {
+					continue
+				}
+				any = true
+				dom := false
+				eachInstr(f, func(j ssa.Instruction) {
+					if isReset(j) && instrDominates(j, ret) {
+						dom = true
+					}
+				})
+				if !dom {
+					all = false
+				}
+			}
+			hasInline := false
+			eachInstr(f, func(j ssa.Instruction) {
+				if isReset(j) {
+					hasInline = true
+				}
+			})
+			if any && all && hasInline {
+				okReset = true
+			}
+		}
+		if okReset {
+			r.ok(key+": a failed parse (error return or recovered panic) re-opens the once-gate", p.IPos(gateAt))
+		} else {
+			r.fail(key, p.IPos(gateAt), why)
+		}
+	}
+	if ngate == 0 {
+		r.info("no once-gate found around the header parser – gate-reset NOT DECIDED on this tree (relocated code)", "-")
+	}
 	r.floor(1, n, "stream-derived stores to fields used as divisors")
 }
 
@@ -367,6 +523,7 @@ func ruleCtxKeys(p *Prog, r *RuleResult) {
 	// consumers: lookups with a constant key in the codec packages; keys the codec packages store themselves are internal
 	consumed := map[string]string{}
 	internalK := map[string]bool{}
+	inCtor := map[string]bool{} // consulted while a codec is constructed (selects a variant), not only while it runs forward
 	for _, f := range p.ModFns {
 		rel := p.Rel(f)
 		if rel != "transform" && rel != "entropy" {
@@ -379,6 +536,13 @@ func ruleCtxKeys(p *Prog, r *RuleResult) {
 					if k, ok := ctxKey(x.X, x.Index); ok {
 						if _, seen := consumed[k]; !seen {
 							consumed[k] = p.IPos(i)
+						}
+						root := f
+						for root.Parent() != nil {
+							root = root.Parent()
+						}
+						if n := root.Name(); strings.HasPrefix(n, "New") || strings.HasPrefix(n, "new") {
+							inCtor[k] = true
 						}
 					}
 				}
@@ -394,19 +558,29 @@ func ruleCtxKeys(p *Prog, r *RuleResult) {
 	ws := resolveSide(p, "Writer")
 	rs := resolveSide(p, "Reader")
 	sides := []struct {
+		id   string
 		name string
 		fns  map[*ssa.Function]bool
 	}{
-		{"compression (NewWriter, Write, Close and the encode task)", ioReach(p, p.FuncOpt("io", "NewWriter"), p.MethodOpt("io", "Writer", "Write"), p.MethodOpt("io", "Writer", "Close"), ws.parent, ws.fn)},
-		{"decompression with a header (NewReader, Read and the decode task)", ioReach(p, p.FuncOpt("io", "NewReader"), p.MethodOpt("io", "Reader", "Read"), rs.parent, rs.fn)},
-		{"headerless decompression (NewHeaderlessReader, Read and the decode task)", ioReach(p, p.FuncOpt("io", "NewHeaderlessReader"), p.MethodOpt("io", "Reader", "Read"), rs.parent, rs.fn)},
+		{"writer", "compression (NewWriter, Write, Close and the encode task)", ioReach(p, p.FuncOpt("io", "NewWriter"), p.MethodOpt("io", "Writer", "Write"), p.MethodOpt("io", "Writer", "Close"), ws.parent, ws.entry, ws.fn)},
+		{"reader-header", "decompression with a header (NewReader, Read and the decode task)", ioReach(p, p.FuncOpt("io", "NewReader"), p.MethodOpt("io", "Reader", "Read"), rs.parent, rs.entry, rs.fn)},
+		{"reader-headerless", "headerless decompression (NewHeaderlessReader, Read and the decode task)", ioReach(p, p.FuncOpt("io", "NewHeaderlessReader"), p.MethodOpt("io", "Reader", "Read"), rs.parent, rs.entry, rs.fn)},
 	}
 	if p.FuncOpt("io", "NewWriter") == nil || p.FuncOpt("io", "NewReader") == nil || p.FuncOpt("io", "NewHeaderlessReader") == nil {
 		undecided("R-CTX-KEYS: constructor anchors NewWriter/NewReader/NewHeaderlessReader unresolved")
 	}
+	// a key the codec packages also store is internal to them - unless package io stores it too on some path: then
+	// it is configuration again, and every path has to provide it
+	ioAll := map[*ssa.Function]bool{}
+	for _, f := range p.ModFns {
+		if p.Rel(f) == "io" {
+			ioAll[f] = true
+		}
+	}
+	ioStores := ctxKeysStoredIn(p, ioAll)
 	var keys []string
 	for k := range consumed {
-		if !internalK[k] {
+		if _, byIo := ioStores[k]; !internalK[k] || (byIo && inCtor[k]) {
 			keys = append(keys, k)
 		}
 	}
@@ -419,7 +593,7 @@ func ruleCtxKeys(p *Prog, r *RuleResult) {
 			if pos, ok := stored[k]; ok {
 				r.ok(fmt.Sprintf("ctx[%q] (consumed at %s) is published on the %s side", k, consumed[k], sd.name), pos)
 			} else {
-				r.fail(fmt.Sprintf("ctx.%s#%s", k, sd.name[:strIndex(sd.name, " (")]), consumed[k], fmt.Sprintf("a codec consults ctx[%q] but nothing on the %s path stores it: the codec falls back to a default there while the other side configures it from the real value, so the two sides can build different codec variants for the same stream", k, sd.name))
+				r.fail(fmt.Sprintf("ctx.%s#%s", k, sd.id), consumed[k], fmt.Sprintf("a codec consults ctx[%q] but nothing on the %s path stores it: the codec falls back to a default there while the other side configures it from the real value, so the two sides can build different codec variants for the same stream", k, sd.name))
 			}
 		}
 	}
@@ -450,7 +624,7 @@ func ruleJobsWire(p *Prog, r *RuleResult) {
 		undecided("anchor unresolved: (*io.Writer).writeHeader")
 	}
 	ws := resolveSide(p, "Writer")
-	scopeFns := ioReach(p, p.FuncOpt("io", "NewWriter"), p.FuncOpt("io", "NewWriterWithCtx"), p.MethodOpt("io", "Writer", "Write"), p.MethodOpt("io", "Writer", "Close"), ws.parent)
+	scopeFns := ioReach(p, p.FuncOpt("io", "NewWriter"), p.FuncOpt("io", "NewWriterWithCtx"), p.MethodOpt("io", "Writer", "Write"), p.MethodOpt("io", "Writer", "Close"), ws.parent, ws.entry)
 	delete(scopeFns, ws.fn)
 	// wire fields: the Writer fields the header writer loads (besides streams and flags that are not values)
 	wire := map[*types.Var]bool{}
@@ -620,4 +794,413 @@ func ruleJobsWire(p *Prog, r *RuleResult) {
 	r.info(fmt.Sprintf("%d job-count sources, %d tainted values, %d wire fields read by the header writer, %d functions in scope", nsrc, fl.Count(), len(wire), len(scopeFns)), p.Pos(whdr.Pos()))
 	r.floor(1, nsrc, "job-count sources")
 	r.floor(3, n, "assignments of wire fields")
+}
+
+// ---------------------------------------------------------------------------------------
+// R-STALE-SLOT
+// ---------------------------------------------------------------------------------------
+
+func init() {
+	register("R-STALE-SLOT", "in Write and Read no buffer index or offset computed from the stream's fill counters before a batch call is used after it without being recomputed", false, ruleStaleSlot)
+}
+
+// staleness analysis: a forward may-dataflow over one function. Bit 1 (derived): the current instance of the SSA value
+// was computed from a load of one of the watched fields. Bit 2 (stale): it was derived when a watched call executed
+// afterwards, i.e. it describes the state before the call.
+func staleValues(f *ssa.Function, isWatchedLoad, isStableLoad func(ssa.Instruction) bool, isWatchedCall func(ssa.Instruction) bool, use func(in ssa.Instruction, stale func(ssa.Value) bool)) {
+	type fact map[ssa.Value]uint8
+	ins := make([]fact, len(f.Blocks))
+	for i := range ins {
+		ins[i] = fact{}
+	}
+	visited := make([]bool, len(f.Blocks))
+	work := []int{0}
+	transfer := func(b *ssa.BasicBlock, in fact, report bool) fact {
+		cur := fact{}
+		for k, v := range in {
+			cur[k] = v
+		}
+		for _, instr := range b.Instrs {
+			if _, ok := instr.(*ssa.Phi); ok {
+				continue
+			}
+			if report {
+				use(instr, func(v ssa.Value) bool { return cur[v]&2 != 0 })
+			}
+			if v, ok := instr.(ssa.Value); ok {
+				var bits uint8
+				switch {
+				case isWatchedLoad(instr):
+					bits = 1
+				case isStableLoad(instr):
+					bits = 4
+				default:
+					// derived (1) only if computed purely from derived values, stable fields and constants:
+					// a value that also depends on the caller's arguments (an offset into the caller's buffer,
+					// the remaining count) does not describe the stream's own buffers
+					anyD, anyS, pure := false, false, true
+					switch x := instr.(type) {
+					case *ssa.BinOp, *ssa.Convert, *ssa.ChangeType:
+					case *ssa.UnOp:
+						if x.Op == token.MUL {
+							pure = false
+						}
+					case *ssa.Call:
+						if b, ok := x.Call.Value.(*ssa.Builtin); !ok || (b.Name() != "min" && b.Name() != "max") {
+							pure = false
+						}
+					default:
+						pure = false
+					}
+					if pure {
+						for _, op := range instr.Operands(nil) {
+							if *op == nil {
+								continue
+							}
+							if _, isB := (*op).(*ssa.Builtin); isB {
+								continue
+							}
+							if _, isC := (*op).(*ssa.Const); isC {
+								continue
+							}
+							b := cur[*op]
+							if b&(1|4) == 0 || b&8 != 0 {
+								pure = false
+								break
+							}
+							anyD = anyD || b&1 != 0
+							anyS = anyS || b&2 != 0
+						}
+					}
+					switch {
+					case pure && anyD && anyS:
+						bits = 1 | 2
+					case pure && anyD:
+						bits = 1
+					case pure:
+						bits = 4
+					default:
+						bits = 8
+					}
+				}
+				cur[v] = bits
+			}
+			if isWatchedCall(instr) {
+				for k, v := range cur {
+					if v&1 != 0 {
+						cur[k] = v | 2
+					}
+				}
+			}
+		}
+		return cur
+	}
+	for len(work) > 0 {
+		bi := work[0]
+		work = work[1:]
+		b := f.Blocks[bi]
+		visited[bi] = true
+		out := transfer(b, ins[bi], false)
+		for _, sc := range b.Succs {
+			edgeFact := fact{}
+			for k, v := range out {
+				edgeFact[k] = v
+			}
+			for _, instr := range sc.Instrs {
+				ph, ok := instr.(*ssa.Phi)
+				if !ok {
+					break
+				}
+				var bits uint8
+				for pi, pr := range sc.Preds {
+					if pr == b {
+						var eb uint8 = 8 // parameters, non-integer and unknown values are impure
+						if _, isC := ph.Edges[pi].(*ssa.Const); isC {
+							eb = 4
+						} else if x, ok := out[ph.Edges[pi]]; ok {
+							eb = x
+						}
+						bits = joinStale(bits, eb)
+					}
+				}
+				edgeFact[ph] = bits
+			}
+			changed := !visited[sc.Index]
+			for k, v := range edgeFact {
+				if j := joinStale(ins[sc.Index][k], v); j != ins[sc.Index][k] {
+					ins[sc.Index][k] = j
+					changed = true
+				}
+			}
+			if changed {
+				visited[sc.Index] = true
+				work = append(work, sc.Index)
+			}
+		}
+	}
+	for bi, b := range f.Blocks {
+		if visited[bi] {
+			transfer(b, ins[bi], true)
+		}
+	}
+}
+
+// joinStale: lattice join of the per-value facts (0 = not computed yet; 4 = stable; 1 = derived [+2 stale]; 8 = impure)
+func joinStale(a, b uint8) uint8 {
+	switch {
+	case a == 0:
+		return b
+	case b == 0:
+		return a
+	case (a|b)&8 != 0:
+		return 8
+	case (a|b)&1 != 0:
+		return 1 | ((a | b) & 2)
+	}
+	return 4
+}
+
+func ruleStaleSlot(p *Prog, r *RuleResult) {
+	n := 0
+	for _, owner := range []string{"Writer", "Reader"} {
+		s := resolveSide(p, owner)
+		api := "Write"
+		if owner == "Reader" {
+			api = "Read"
+		}
+		f := p.Method("io", owner, api)
+		fname := p.FnName(f)
+		ot := p.Pkg("io").Type(owner).Type().(*types.Named)
+		// fields the batch function writes
+		watched := map[*types.Var]bool{}
+		for _, g := range append([]*ssa.Function{s.entry}, p.helperClosure(s.entry)...) {
+			eachInstr(g, func(i ssa.Instruction) {
+				var addr ssa.Value
+				if st, ok := i.(*ssa.Store); ok {
+					addr = st.Addr
+				}
+				if c := callOf(i); c != nil && isAtomic(c, "StoreInt32", "SwapInt32", "AddInt32", "CompareAndSwapInt32") && len(c.Args) > 0 {
+					addr = c.Args[0]
+				}
+				if fa, ok := addr.(*ssa.FieldAddr); ok && namedOf(fa.X.Type()) == ot {
+					if fv := fieldVarOfAddr(fa); fv != nil && isIntType(fv.Type()) {
+						watched[fv] = true
+					}
+				}
+			})
+		}
+		// Read assigns the batch function's result to a field itself: that field changes at the call as well
+		eachInstr(f, func(i ssa.Instruction) {
+			if st, ok := i.(*ssa.Store); ok {
+				if fa, ok := st.Addr.(*ssa.FieldAddr); ok && namedOf(fa.X.Type()) == ot {
+					if ex, ok := stripConv(st.Val).(*ssa.Extract); ok {
+						if c, ok := ex.Tuple.(*ssa.Call); ok && c.Call.StaticCallee() == s.entry {
+							watched[fieldVarOfAddr(fa)] = true
+						}
+					}
+				}
+			}
+		})
+		isLoad := func(i ssa.Instruction) bool {
+			u, ok := i.(*ssa.UnOp)
+			if !ok || u.Op != token.MUL {
+				return false
+			}
+			fa, ok := u.X.(*ssa.FieldAddr)
+			return ok && namedOf(fa.X.Type()) == ot && watched[fieldVarOfAddr(fa)]
+		}
+		isStable := func(i ssa.Instruction) bool {
+			u, ok := i.(*ssa.UnOp)
+			if !ok || u.Op != token.MUL {
+				return false
+			}
+			fa, ok := u.X.(*ssa.FieldAddr)
+			return ok && namedOf(fa.X.Type()) == ot && !watched[fieldVarOfAddr(fa)] && isIntType(fieldVarOfAddr(fa).Type())
+		}
+		memo := map[*ssa.Function]int{}
+		isBatch := func(i ssa.Instruction) bool {
+			c := callOf(i)
+			if c == nil {
+				return false
+			}
+			if c.StaticCallee() == s.entry {
+				return true
+			}
+			if h := helperCallee(i, FnPkg(f)); h != nil {
+				return p.containsDeep(h, func(j ssa.Instruction) bool {
+					cc := callOf(j)
+					return cc != nil && cc.StaticCallee() == s.entry
+				}, memo)
+			}
+			return false
+		}
+		ncalls := 0
+		eachInstr(f, func(i ssa.Instruction) {
+			if isBatch(i) {
+				ncalls++
+			}
+		})
+		if ncalls == 0 || len(watched) == 0 {
+			r.info(fmt.Sprintf("%s: no batch call or no watched field found – NOT DECIDED on this tree (relocated code)", fname), p.Pos(f.Pos()))
+			continue
+		}
+		var k keyer
+		bad := 0
+		staleValues(f, isLoad, isStable, isBatch, func(in ssa.Instruction, stale func(ssa.Value) bool) {
+			var what string
+			switch x := in.(type) {
+			case *ssa.IndexAddr:
+				if stale(x.Index) {
+					what = "index"
+				}
+			case *ssa.Index:
+				if stale(x.Index) {
+					what = "index"
+				}
+			case *ssa.Slice:
+				for _, bnd := range []ssa.Value{x.Low, x.High, x.Max} {
+					if bnd != nil && stale(bnd) {
+						what = "slice bound"
+						if os.Getenv("KZ_STALE_DEBUG") != "" {
+							fmt.Fprintf(os.Stderr, "STALE %s in %s: %s = %s\n", p.IPos(in), in.String(), bnd.Name(), bnd.String())
+						}
+					}
+				}
+			}
+			if what != "" {
+				bad++
+				r.fail(k.key(fname, "stale-"+what[:5]), p.IPos(in), fmt.Sprintf("a buffer %s computed from the stream's counters before a call of the batch function is used after that call without being recomputed: the batch function resets those counters, so the data goes to (or comes from) the wrong block buffer whenever a single %s call spans a batch boundary", what, api))
+			}
+		})
+		n++
+		if bad == 0 {
+			var ws []string
+			for fv := range watched {
+				ws = append(ws, fv.Name())
+			}
+			sort.Strings(ws)
+			r.ok(fmt.Sprintf("%s: no index or slice bound derived from %v survives a batch call (%d call site(s))", fname, ws, ncalls), p.Pos(f.Pos()))
+		}
+	}
+	r.floor(2, n, "API functions analysed")
+}
+
+// reachAvoiding: the blocks whose *end* can be reached from the function entry on a path that executes none of the
+// avoided instructions. A branch on a phi whose incoming value on the edge taken is a boolean constant follows only
+// the matching successor (flag-controlled loops: `for again := true; again; { ... }`).
+func reachAvoiding(f *ssa.Function, avoid map[ssa.Instruction]bool) map[*ssa.BasicBlock]bool {
+	type key struct{ b, from *ssa.BasicBlock }
+	seen := map[key]bool{}
+	out := map[*ssa.BasicBlock]bool{}
+	var visit func(b, from *ssa.BasicBlock)
+	visit = func(b, from *ssa.BasicBlock) {
+		k := key{b, from}
+		if seen[k] {
+			return
+		}
+		seen[k] = true
+		for _, in := range b.Instrs {
+			if avoid[in] {
+				return
+			}
+		}
+		out[b] = true
+		if ifi := blockIf(b); ifi != nil && from != nil {
+			cond := ifi.Cond
+			neg := false
+			for {
+				u, ok := cond.(*ssa.UnOp)
+				if !ok || u.Op != token.NOT {
+					break
+				}
+				cond = u.X
+				neg = !neg
+			}
+			if ph, ok := cond.(*ssa.Phi); ok && ph.Block() == b {
+				for pi, pr := range b.Preds {
+					if pr != from {
+						continue
+					}
+					if c, ok := ph.Edges[pi].(*ssa.Const); ok && c.Value != nil && isBool(c.Type()) {
+						val := c.Value.String() == "true"
+						if neg {
+							val = !val
+						}
+						if val {
+							visit(b.Succs[0], b)
+						} else {
+							visit(b.Succs[1], b)
+						}
+						return
+					}
+				}
+			}
+		}
+		for _, sc := range b.Succs {
+			visit(sc, b)
+		}
+	}
+	visit(f.Blocks[0], nil)
+	return out
+}
+
+// ---------------------------------------------------------------------------------------
+// R-MODE-ORDER
+// ---------------------------------------------------------------------------------------
+
+func init() {
+	register("R-MODE-ORDER", "in the block tasks a codec is constructed from the task's transform/entropy type only after the last assignment of that type (the mode byte and the codec always describe the same choice)", false, ruleModeOrder)
+}
+
+func ruleModeOrder(p *Prog, r *RuleResult) {
+	n := 0
+	for _, owner := range []string{"Writer", "Reader"} {
+		s := resolveSide(p, owner)
+		f := s.fn
+		fname := p.FnName(f)
+		var k keyer
+		eachInstr(f, func(i ssa.Instruction) {
+			c, ok := i.(*ssa.Call)
+			if !ok {
+				return
+			}
+			o := calleeObj(&c.Call)
+			if o == nil || o.Pkg() == nil || !strings.HasPrefix(o.Name(), "New") {
+				return
+			}
+			if pp := o.Pkg().Path(); pp != p.ModPath+"/transform" && pp != p.ModPath+"/entropy" {
+				return
+			}
+			for _, a := range c.Call.Args {
+				u, ok := stripConv(a).(*ssa.UnOp)
+				if !ok || u.Op != token.MUL {
+					continue
+				}
+				fa, ok := u.X.(*ssa.FieldAddr)
+				if !ok || namedOf(fa.X.Type()) != s.taskT {
+					continue
+				}
+				fv := fieldVarOfAddr(fa)
+				n++
+				bad := false
+				eachInstr(f, func(j ssa.Instruction) {
+					st, ok := j.(*ssa.Store)
+					if !ok || fieldVarOfAddr(st.Addr) != fv {
+						return
+					}
+					if sfa, ok := st.Addr.(*ssa.FieldAddr); !ok || namedOf(sfa.X.Type()) != s.taskT {
+						return
+					}
+					if instrReaches(i, j) {
+						bad = true
+						r.fail(k.key(fname, "type-changed-after-"+o.Name()), p.IPos(j), fmt.Sprintf("the task field %s is assigned after %s.%s was called with its value: the codec that processes the block was built for a type the block header no longer describes (a small or incompressible block is then run through the transforms but flagged as stored, or the reverse)", fv.Name(), o.Pkg().Name(), o.Name()))
+					}
+				})
+				if !bad {
+					r.ok(fmt.Sprintf("%s: %s is not assigned after %s.%s consumed it", fname, fv.Name(), o.Pkg().Name(), o.Name()), p.IPos(i))
+				}
+			}
+		})
+	}
+	r.floor(3, n, "codec constructions from task type fields")
 }
